@@ -12,7 +12,10 @@ RULE = ("seeded federated configurations (gvh/fedlab: supergraph of 3-10 object 
         "entities, second-key-only subgraphs, and -- in half of the medium / full configurations, knob 'covariant' -- "
         "interfaces with object / list fields whose type is again an interface or union, narrowed covariantly by some "
         "implementers, two levels deep, and (knob 'scopedhops', likewise) every interface with an entity hop whose entity "
-        "has a field in another subgraph, lists holding every implementer; composition contract in harness/fedlab/CONTRACT.md), a key-consistent data "
+        "has a field in another subgraph, lists holding every implementer, and (knob 'nestedlists', likewise) fields of type "
+        "[[T]] / [[[T]]] in every nullability combination, T an entity with fields in other subgraphs -- so that _entities "
+        "fetches have their parent objects below a list of lists --, a value / local type, an interface, a union or a scalar, "
+        "also declared by interfaces, with null / empty inner lists, null items and entities repeated across inner lists; composition contract in harness/fedlab/CONTRACT.md), a key-consistent data "
         "universe per configuration (nullable positions sometimes null or failing, entity lists with repeats such as "
         "a,a,b,c,b and nulls in the middle), and 5 "
         "valid-by-construction operations per configuration (nesting across subgraph boundaries, aliases, named and "
@@ -55,7 +58,8 @@ def classify(case, detail):
         return "key-hop-planning-paths"
     # a @requires field comes back null because its input, @provided in one fragment of an abstract selection
     # only, is sent as null for the sibling fragment
-    if clause == "data_equal" and re.search(r'\.rq\d+(_\d+)?: null vs (\\22|\\?")rq\d+\[', detail) \
+    # (the response key may be an alias: the expected value "rqN[..]" names the @requires field)
+    if clause == "data_equal" and re.search(r'\.(rq\d+(_\d+)?|al\d+): null vs (\\22|\\?")rq\d+\[', detail) \
             and "(requires t)" in case and "(provides t)" in case and "(abstract t)" in case:
         return "requires-input-provided-in-one-fragment"
     # a subgraph error of an entity fetch that only a non-matching parent type condition asked for
@@ -74,7 +78,20 @@ def classify(case, detail):
             r"index out of range \[\d+\] with length \d+ \| frames: pkg/ast\.\(\*Document\)\.AddSelection <- "
             r"pkg/engine/datasource/graphql_datasource\.\(\*Planner\[\.\.\.\]\)\.(addField|addTypenameToSelectionSet) <- ", detail):
         return "datasource-planner-add-selection-out-of-range"
+    # suspected same root cause as the panic above (the node stack's top is used as a selection-set ref): when the ref
+    # happens to be in range the field lands in a foreign selection set -- seen: the root one -- and the upstream
+    # operation no longer validates; needs a partially declared interface next to covariant narrowing as well
+    if clause == "planning_never_fails" and "(id " in case and re.search(r'\(id \d+ \d+ \d+ "[^"]*\bpartialinterfaces\b[^"]*\bcovariant\b', case) \
+            and re.search(r'printOperation planner id: \d+: validation failed: external: Cannot query field \S+ on type \S*Query\S*, '
+                          r'locations: \[\], path: \[query\]', detail):
+        return "datasource-planner-field-added-to-root-selection-set"
     # (a difference in data may come with errors on the gateway's side only: nulled non-null positions)
+    # postprocess/merge_fields.go mergeValues looks through one resolve.Array level only: when two fields of one response
+    # key and of type [[T]] are merged (`f {a} ... on X { f {b} }`), the second one's sub-selection is dropped from the
+    # response plan -- the diverging key has NO field in the plan at all and is missing from objects below a list of lists
+    md = DIAG.search(detail) if clause == "data_equal" else None
+    if md and "(nestedlist t)" in case and not md.group(4).strip() and re.search(r"(\[\d+\]){2,}[^ ]*: members \{", detail):
+        return "merge-fields-drops-selection-below-list-of-lists"
     m = DIAG.search(detail) if clause == "data_equal" or (clause == "errors_iff" and "gateway=true reference=false" in detail) else None
     if m and "(abstract t)" in case:
         position, ncombos, combos, fields, aliases = m.groups()
@@ -102,7 +119,8 @@ def distribution(cases):
          "ops_with_aliases": 0, "requires_field_selected_on_interface": 0, "object_list_selected_on_interface": 0,
          "configs_with_knob_covariant": 0, "abstract_field_under_abstract_parent": 0, "with_covariant_narrowing": 0,
          "same_inner_key_under_several_condition_combinations": 0, "configs_with_knob_scopedhops": 0,
-         "interface_entity_hop_under_several_scopes": 0,
+         "interface_entity_hop_under_several_scopes": 0, "configs_with_knob_nestedlists": 0,
+         "list_of_lists_selected": 0, "entity_fetch_below_list_of_lists": 0,
          "engine_panics": 0, "gateway_reported_errors": 0, "member_order_differs": 0, "knob_tiers": {}}
     for c in cases:
         for name, rx in (("subgraphs", r"\(subgraphs (\d+)\)"), ("fetches_per_plan", r"\(fetches (\d+)\)"),
@@ -116,7 +134,8 @@ def distribution(cases):
                           ("object_list_selected_on_interface", "ifaceobjlist"),
                           ("abstract_field_under_abstract_parent", "covfield"), ("with_covariant_narrowing", "covnarrowed"),
                           ("same_inner_key_under_several_condition_combinations", "covsamekey"),
-                          ("interface_entity_hop_under_several_scopes", "scopedhop")):
+                          ("interface_entity_hop_under_several_scopes", "scopedhop"),
+                          ("list_of_lists_selected", "nestedlist"), ("entity_fetch_below_list_of_lists", "nestedhop")):
             if "(%s t)" % tag in c:
                 d[name] += 1
         if "(gwerrors t)" in c:
@@ -132,7 +151,9 @@ def distribution(cases):
                 d["configs_with_knob_covariant"] += 1
             if "scopedhops" in m.group(1).split(","):
                 d["configs_with_knob_scopedhops"] += 1
-            n = len([k for k in m.group(1).split(",") if k not in ("covariant", "scopedhops")])
+            if "nestedlists" in m.group(1).split(","):
+                d["configs_with_knob_nestedlists"] += 1
+            n = len([k for k in m.group(1).split(",") if k not in ("covariant", "scopedhops", "nestedlists")])
             tier = "minimal" if n <= 6 else ("medium" if n <= 26 else "full")
             d["knob_tiers"][tier] = d["knob_tiers"].get(tier, 0) + 1
     for k in ("subgraphs", "fetches_per_plan", "entity_fetches"):
@@ -205,8 +226,9 @@ def run(chk):
     skip = ("conflict because they return conflicting types|not provided on this path|has field waiting for dependency"
             "|rq[0-9_]+: null vs|gateway errors=true reference errors=false"
             "|Fragment cannot be spread here as objects of type|upstream merge aliases .__internal_merge"
-            "|frames: pkg/ast...Document..AddSelection"
-            "|selected under [0-9]+ condition combination.*; plan fields .*parentOn=")
+            "|frames: pkg/ast...Document..AddSelection|Cannot query field .* on type .*Query.*path: .query.$"
+            "|selected under [0-9]+ condition combination.*; plan fields .*parentOn="
+            "|[0-9]+..[0-9]+.[^ ]*: members .*; plan fields ..; upstream")
     state, samples, allcases = {}, [], []
     corpus = os.path.join(vlib.ROOT, "corpus", "C01")
     if glob.glob(os.path.join(corpus, "*.json")):
@@ -214,7 +236,7 @@ def run(chk):
         if b:
             vlib.digest_batch(chk, b[0], b[1], classify, state)
             chk.coverage["corpus_cases"] = len(b[0])
-    b = vlib.run_batch(chk, "%s gen -seed %d -n %d -unis %d -knobs all2 -shrink 2 -shrinkskip \"%s\" -out {out} -replaydir %s" % (
+    b = vlib.run_batch(chk, "%s gen -seed %d -n %d -unis %d -knobs all3 -shrink 2 -shrinkskip \"%s\" -out {out} -replaydir %s" % (
         exe, chk.seed, n, unis, skip, rdir), model, "gen", timeout=3000)
     if b:
         vlib.digest_batch(chk, b[0], b[1], classify, state)
@@ -224,7 +246,7 @@ def run(chk):
 
     def more(st):
         for k in range(1, 4):
-            bb = vlib.run_batch(chk, "%s gen -seed %d -n %d -unis %d -knobs all2 -shrink 1 -shrinkskip \"%s\" -out {out} -replaydir %s" % (
+            bb = vlib.run_batch(chk, "%s gen -seed %d -n %d -unis %d -knobs all3 -shrink 1 -shrinkskip \"%s\" -out {out} -replaydir %s" % (
                 exe, chk.seed * 1000 + k, n * 2, unis, skip, rdir), model, "more%d" % k, timeout=3000)
             if bb:
                 vlib.digest_batch(chk, bb[0], bb[1], classify, st)
@@ -252,7 +274,7 @@ def run(chk):
     # translation validation of the real planner's plans against the verified plan-tree validator (tools/props/c01p.py)
     try:
         from props import c01p
-        c01p.run_part(chk)
+        c01p.run_part(chk, knobs="all3")
     except Exception as e:  # the part must never take the whole check down silently
         chk.add_violation("tie:C01p/run", "plan validation part failed to run: %r" % (e,), found_input=False)
 
